@@ -208,7 +208,8 @@ def run_c17(tier):
     exe = rt.build_rt('simcam_main')
     cfgs = [rt.cfg('c17r', 'D2', w=8, h=8, w2=64, h2=64, type2=1, kind=0), rt.cfg('c17r', 'D2', w=64, h=64, binning=2, w2=8, h2=8, binning2=1, kind=1),
             rt.cfg('c17r', 'D2', w=8, h=8, binning=2, w2=64, h2=64, kind=0), rt.cfg('c17r', 'D2', w=64, h=64, w2=1, h2=1, kind=2, type2=4),
-            rt.cfg('c17r', 1, w=8, h=8, w2=64, h2=64, kind=0)]
+            rt.cfg('c17r', 1, w=8, h=8, w2=64, h2=64, kind=0),
+            rt.cfg('c17r', 'D1', w=8, h=8, binning=2, w2=64, h2=64, kind=0, misalign=1), rt.cfg('c17r', 'D1', w=33, h=3, binning=4, w2=8, h2=8, binning2=2, kind=1, misalign=1)]
     if tier == 'thorough':
         cfgs += [rt.cfg('c17r', 'D3', **c['params']) for c in cfgs[:4]] + [rt.cfg('c17r', 2, w=8, h=8, w2=64, h2=64, kind=0)]
     rep_b = C.Report('C17', tier)
